@@ -52,6 +52,8 @@ class PathState:
         self.used_contracts = set()
         self.used_models = set()
         self.unknown_feasibility = 0
+        self.no_fork = 0           # >0 inside quantifier bodies: a real fork is not allowed
+        self.known = {}            # z3 term id -> list of (frozenset(scope ids), bool): entailed truth values
 
     # ---- naming -----------------------------------------------------------------
     def fresh_name(self, base):
@@ -116,6 +118,23 @@ class PathState:
             return self.prefix[i]
         return None
 
+    def _scope_ids(self):
+        return frozenset(x.get_id() for x in self.scopes)
+
+    def _lookup_known(self, t):
+        ent = self.known.get(t.get_id())
+        if ent:
+            cur = self._scope_ids()
+            for sc, val in ent:
+                if sc <= cur:
+                    return val
+        return None
+
+    def _record_known(self, t, val):
+        self.known.setdefault(t.get_id(), []).append((self._scope_ids(), val))
+        self._keep = getattr(self, '_keep', [])
+        self._keep.append(t)       # keep the term alive so that its id is not reused
+
     def fork(self, cond):
         """Decide a symbolic boolean for control flow; returns a concrete bool."""
         if isinstance(cond, bool):
@@ -123,9 +142,17 @@ class PathState:
         t = cond.t if isinstance(cond, SBool) else cond
         d = self._next_decision()
         if d is None or d == FORCE_FORK:
-            can_t = self.is_feasible(t)
-            can_f = self.is_feasible(z3.Not(t))
+            k = self._lookup_known(t)
+            if k is not None:
+                can_t, can_f = k, not k
+            else:
+                can_t = self.is_feasible(t)
+                can_f = self.is_feasible(z3.Not(t)) if can_t else True
+                if can_t != can_f:
+                    self._record_known(t, can_t)
             if can_t and can_f:
+                if self.no_fork:
+                    raise Unsupported('case split inside a quantifier body')
                 self.pending.append(self.decisions + [False])
                 d = True
             elif can_t:
@@ -147,6 +174,8 @@ class PathState:
             feas = [i for i in range(n) if conds is None or self.is_feasible(conds[i])]
             if not feas:
                 raise PathAbort()
+            if len(feas) > 1 and self.no_fork:
+                raise Unsupported('case split inside a quantifier body')
             for j in feas[1:]:
                 self.pending.append(self.decisions + [j])
             d = feas[0]
@@ -154,6 +183,31 @@ class PathState:
         if conds is not None:
             self._add(self._scoped(conds[d]))
         return d
+
+    def entailed_site(self, t):
+        """At a boolean-operator site: 'T' if t is entailed, 'N' if its negation is, else None.
+        The answer is recorded so that replays do not query the solver again."""
+        d = self._next_decision()
+        if d in ('T', 'N', 'U'):
+            self.decisions.append(d)
+            return None if d == 'U' else d
+        if d is not None and d != FORCE_FORK:
+            return None       # an older log format position: fall through to merge/fork handling
+        if d == FORCE_FORK:
+            return None
+        k = self._lookup_known(t)
+        if k is not None:
+            r = 'T' if k else 'N'
+        elif self.must_hold(t):
+            r = 'T'
+            self._record_known(t, True)
+        elif self.must_hold(z3.Not(t)):
+            r = 'N'
+            self._record_known(t, False)
+        else:
+            r = 'U'
+        self.decisions.append(r)
+        return None if r == 'U' else r
 
     def merge_site(self):
         """Returns True if this boolean-operator site should be merged, False if forked."""
